@@ -83,8 +83,9 @@ def rule_finish_forced_draw(ctx, crate, rule="R-FINISH-FORCED-DRAW"):
     # state first, then paint
     sts = status_stores(b)
     writes = [(i, "status", s.get("line", 0)) for i, s, vs in sts] + [(i, "message", s.get("line", 0)) for i, s in message_stores(b)] + \
-        [(c.bb, "position", c.line) for c in b.calls(r"state::AtomicPosition::(set|inc|dec|reset)", r"state::ProgressState::set_pos")]
-    ctx.floor(rule, len(writes), 6, cfg, "state writes in finish_using_style")
+        [(c.bb, "position", c.line) for c in b.calls() if c.matches(r"state::AtomicPosition::(set|inc|dec|reset)", r"state::ProgressState::set_pos")
+         or any(t in position_setters(crate) for t in [c.path] + crate.resolve_targets(c))]
+    ctx.floor(rule, len({k for _, k, _ in writes}), 3, cfg, "kinds of state written in finish_using_style (status, message, position)")
     for bb, what, line in writes:
         ctx.check(bb not in after, rule, "state-before-draw:%s" % what, b.name, "%s:%d" % (b.file, line),
                   "%s is written before the final draw" % what, "%s is written after the final draw (the last frame shows the old value)" % what, cfg)
@@ -136,24 +137,34 @@ def rule_finish_arms(ctx, crate, rule="R-FINISH-ARMS"):
     ctx.check(set(names) == set(ARM_TABLE), rule, "variants", "state::ProgressFinish", "src/state.rs",
               "ProgressFinish variants match the table", "ProgressFinish variants %s differ from the property's table" % names, cfg)
     fin_params = [i for i in range(1, b.arg_count + 1) if b.locals[i].get("head") == "state::ProgressFinish"]
-    regs = K.variant_regions(b, crate, "state::ProgressFinish", lambda pl: pl["l"] in fin_params and not pl["p"])
+    fin_locals = set(fin_params)
+    for l, ds in b.defs().items():
+        if any(d["kind"] == "assign" and d["rv"]["k"] == "use" and operand_local(d["rv"]["op"]) in fin_params and not d["rv"]["op"]["place"]["p"] for d in ds):
+            fin_locals.add(l)
+    pred = lambda pl: pl["l"] in fin_locals and not pl["p"]
+    sw = [x for x in K.discr_switches(b) if K.head_of_type(x[2].get("ty", "")) == "state::ProgressFinish" and pred(x[2])]
+    if not sw:
+        ctx.lost(rule, cfg, "finish_using_style no longer inspects its ProgressFinish argument")
+        return
     seen = set()
     setters = position_setters(crate)
     sets = [c for c in b.calls() if any(t in setters for t in [c.path] + crate.resolve_targets(c))]
     msgs = message_stores(b)
     sts = status_stores(b)
-    for vs, reg, sb, pl in regs:
-        if len(vs) != 1:
-            continue
-        v = next(iter(vs))
+    everywhere = b.reachable()
+    for v in names:
         if v not in ARM_TABLE:
+            continue
+        # the part of the function that can execute when the argument is this variant
+        reg = K.variant_reach(b, crate, "state::ProgressFinish", v, pred)
+        if reg == everywhere:
             continue
         seen.add(v)
         want_set, want_msg, want_hide = ARM_TABLE[v]
         has_set = [c for c in sets if c.bb in reg]
         has_msg = [(i, s) for i, s in msgs if i in reg]
         has_hide = [i for i, s, st in sts if i in reg and "DoneHidden" in st]
-        loc = "%s:%d" % (b.file, b.term(sb).get("line", 0))
+        loc = "%s:%d" % (b.file, b.term(sw[0][0]).get("line", 0))
         ctx.check(bool(has_set) == want_set, rule, "%s:position" % v, b.name, loc,
                   "%s %s the position to the length" % (v, "sets" if want_set else "leaves"),
                   "%s arm %s set the position to the length" % (v, "does not" if want_set else "must not"), cfg)
@@ -172,7 +183,7 @@ def rule_finish_arms(ctx, crate, rule="R-FINISH-ARMS"):
         ctx.check(bool(has_hide) == want_hide, rule, "%s:hidden" % v, b.name, loc,
                   "%s %s" % (v, "hides the bar (DoneHidden)" if want_hide else "stays visible"),
                   "%s arm %s store DoneHidden" % (v, "does not" if want_hide else "must not"), cfg)
-    ctx.floor(rule, len(seen), 5, cfg, "ProgressFinish arms with a dedicated region")
+    ctx.floor(rule, len(seen), 5, cfg, "ProgressFinish variants with a specialised path through finish_using_style")
 
 
 def rule_finish_api_map(ctx, crate, rule="R-FINISH-API-MAP"):
